@@ -450,7 +450,11 @@ impl Monitor {
         });
         let evdir = self.verif_dir.join("evidence");
         let _ = std::fs::create_dir_all(&evdir);
-        let evpath = evdir.join(format!("{}.json", self.id));
+        // A property served by two engines writes `<ID>.<part>.json`; `/verif/check` merges the parts.
+        let evpath = match std::env::var("VERIF_PART") {
+            Ok(part) if !part.is_empty() => evdir.join(format!("{}.{}.json", self.id, part)),
+            _ => evdir.join(format!("{}.json", self.id)),
+        };
         if let Err(e) = std::fs::write(&evpath, serde_json::to_string_pretty(&ev).unwrap()) {
             eprintln!("cannot write evidence {}: {e}", evpath.display());
         }
